@@ -69,10 +69,10 @@ func I(kids ...*spec) *spec      { return &spec{kind: kInc, kids: kids} }
 func It(n int, tmpl *spec) *spec { return &spec{kind: kIter, kids: []*spec{tmpl}, n: n} }
 
 // TD / CD: task / call without a `critical` key; H: hook task; Off: the same role with `enabled: "false"`.
-func TD() *spec          { return &spec{kind: kTask, crit: true, critAbsent: true} }
-func CD() *spec          { return &spec{kind: kCall, crit: true, critAbsent: true} }
-func H(crit bool) *spec  { return &spec{kind: kTask, crit: crit, hook: true} }
-func Off(s *spec) *spec  { c := *s; c.disabled = true; return &c }
+func TD() *spec         { return &spec{kind: kTask, crit: true, critAbsent: true} }
+func CD() *spec         { return &spec{kind: kCall, crit: true, critAbsent: true} }
+func H(crit bool) *spec { return &spec{kind: kTask, crit: crit, hook: true} }
+func Off(s *spec) *spec { c := *s; c.disabled = true; return &c }
 
 func (s *spec) String() string {
 	switch s.kind {
@@ -618,11 +618,13 @@ var (
 
 // membersFamily: trees whose members come in the variants the other families leave out. Shapes
 // agg{a b}, agg{a b c}, agg{a agg{b c}}, agg{agg{a b} c}, agg{agg{a} b} with the slots filled from
-//   plain:   critical task, non-critical task, critical call
-//   variant: task / call without a `critical` key (critical by default), hook task (critical or not),
-//            a critical task / a non-critical task / an aggregator with a critical task switched off with
-//            `enabled: "false"` (pruned), an aggregator emptied by pruning, iterators over 0, 1 and 3
-//            elements (critical and non-critical template)
+//
+//	plain:   critical task, non-critical task, critical call
+//	variant: task / call without a `critical` key (critical by default), hook task (critical or not),
+//	         a critical task / a non-critical task / an aggregator with a critical task switched off with
+//	         `enabled: "false"` (pruned), an aggregator emptied by pruning, iterators over 0, 1 and 3
+//	         elements (critical and non-critical template)
+//
 // with one or two variant members; every tree keeps a live leaf.
 func membersFamily(string) []*spec {
 	plain := []*spec{tC, tN, cC}
@@ -1268,8 +1270,8 @@ func main() {
 			trees:  func(string) []*spec { return append(withSpecial(upTo(pathsA, 3)), withSpecial(upTo(pathsB, 3))...) },
 			length: lenBy(map[int]int{1: 2, 2: 2, 3: 2}, map[int]int{1: 3, 2: 3, 3: 3})}),
 		seqScenario(seqCfg{name: "members", states: true, statuses: true, hooks: true,
-			doc:    "member variants: `critical` left out (default true) on tasks and calls, hook tasks, members pruned by `enabled: false` (task, aggregator, aggregator emptied by pruning), iterators over 0/1/3 elements; x state and status update sequences in which the environment also collects hooks from the root (GetAllHooks / GetHooksMapForTrigger reset the call roles)",
-			trees:  membersFamily,
+			doc:   "member variants: `critical` left out (default true) on tasks and calls, hook tasks, members pruned by `enabled: false` (task, aggregator, aggregator emptied by pruning), iterators over 0/1/3 elements; x state and status update sequences in which the environment also collects hooks from the root (GetAllHooks / GetHooksMapForTrigger reset the call roles)",
+			trees: membersFamily,
 			length: func(tier string, leaves int) int {
 				if tier == "thorough" && leaves <= 3 {
 					return 3
